@@ -79,6 +79,24 @@ DeclRaw(buf, offW, r) ==
             /\ \A j \in 1..r.len : buf[off + j] # 0
        ELSE ~inside \/ \A p \in (off + 1)..Len(buf) : buf[p] # 0
 
+\* ---- very long tables, described instead of listed ------------------------------------------
+\* b = [len, fill, chunks]: len bytes all equal to fill (non-zero) except where a chunk [off (0-based), bytes]
+\* overrides them.  The NULs are then inside the chunks, so a table of 2^20, 2^24 or 2^28 bytes costs nothing to judge.
+NulsOf(b) == UNION { { b.chunks[k].off + j - 1 : j \in { i \in 1..Len(b.chunks[k].bytes) : b.chunks[k].bytes[i] = 0 /\ b.chunks[k].off + i - 1 < b.len } }
+                     : k \in 1..Len(b.chunks) }
+GetRawS(b, offW) ==
+    LET off == Val(offW)
+    IN IF b.len = 0 \/ off = Huge \/ off > b.len THEN [ok |-> FALSE, kind |-> "BadOffset"]
+       ELSE LET cand == { p \in NulsOf(b) : p >= off }
+            IN IF cand = {} THEN [ok |-> FALSE, kind |-> "StringTableMissingNul"]
+               ELSE LET p == CHOOSE x \in cand : \A y \in cand : x <= y
+                    IN [ok |-> TRUE, start |-> off, len |-> p - off]
+\* every byte is ASCII: then get() = get_raw() (otherwise get() is not judged on such a table)
+AsciiS(b) == b.fill <= 127 /\ \A k \in 1..Len(b.chunks) : \A i \in 1..Len(b.chunks[k].bytes) : b.chunks[k].bytes[i] <= 127
+\* the description is usable: a non-zero fill and chunks that do not overlap
+WellDescribed(b) == b.fill # 0 /\ \A k \in 1..Len(b.chunks) : \A m \in 1..Len(b.chunks) :
+                        k < m => b.chunks[k].off + Len(b.chunks[k].bytes) <= b.chunks[m].off
+
 \* projection used in traces and cases: empty slices carry no position
 RangeJ(start, len) == IF len = 0 THEN <<0, 0>> ELSE <<start, len>>
 =============================================================================
